@@ -925,7 +925,7 @@ func (ra *resAnalysis) definitelyPooled(v ssa.Value, f *ssa.Function, d int) boo
 			recycles := false
 			core.EachInstr(f, func(i ssa.Instruction) {
 				if c, ok := i.(*ssa.Call); ok {
-					if g := core.StaticCallee(c); g != nil && g.Name() == "withRecycleResults" && len(c.Call.Args) == 1 {
+					if g := core.StaticCallee(c); g != nil && core.BaseName(g) == "withRecycleResults" && len(c.Call.Args) == 1 {
 						if k, ok := c.Call.Args[0].(*ssa.Const); ok && k.Value != nil && k.Value.ExactString() == "true" {
 							recycles = true
 						}
